@@ -94,20 +94,22 @@ PROPS = {
                 rule='CTR programs: initial value 0..3 + prologue increments, 2..4 threads add(-1) / add(0) / value / wait / wait_n; oracle = linearizability of returned values against an integer, wait results against the value history, release at zero; non-trivial = a wait was in progress when the zeroing decrement started, or >=2 waiters were queued at zero; distinct = distinct (program hash, realized trace hash)'),
     'C11': dict(num=11, sim=[('WAITN', 3), ('MON', 1)], quick=300000, thorough=5000000, flavours_thorough=['gcc_new', 'c11', 'cpp11'],
                 rule='WAITN programs: 1..2 nsync_wait_n callers over 1..5 objects (note / counter / cv / logging probe waitable; stack and heap bookkeeping), actors making objects ready before/during/after registration, deadlines past/future/none, with and without a logging mutex; MON programs with nsync_wait_n on a cv; non-trivial = a make-ready operation overlapped a call that lists the object; distinct = distinct (program hash, realized trace hash)'),
-    'C12': dict(num=12, level='fault_enumeration', sim=[('SEM', 1)], quick=300000, thorough=5000000, flavours_thorough=['gcc_new', 'cpp11'],
-                rule='SEM programs: the real nsync_semaphore_futex.c on the modelled futex; one waiter with a generated sequence of P / timed P, 1..2 posters, clock moves and a generated vector of up to 8 injected futex faults (EINTR, EAGAIN, premature ETIMEDOUT, spurious 0); non-trivial = a fault was consumed, the waiter blocked, or a CAS on the count failed (post landed between load and futex call); distinct = distinct (program hash incl. fault vector, realized trace hash)'),
+    'C12': dict(num=12, level='fault_enumeration', sim=[('SEM', 1)], quick=60000, thorough=1500000, flavours_thorough=['gcc_new', 'cpp11'],
+                rule='SEM programs: the real nsync_semaphore_futex.c on the modelled futex; one waiter with a generated sequence of P / timed P, 1..2 posters, clock moves and either a generated vector of up to 8 injected futex faults (EINTR, EAGAIN, premature ETIMEDOUT, spurious 0) or, for one case in five, EVERY placement of up to 2 faults over the first 6 futex waits x 3 kinds (154 executions of that program and schedule; evaluations counts executions); non-trivial = a fault was consumed, the waiter blocked, or a CAS on the count failed (post landed between load and futex call); distinct = distinct (program hash incl. fault vector, realized trace hash)'),
     'C14': dict(num=14, sim=[('STARVE', 1)], quick=20000, thorough=400000, flavours_thorough=['gcc_new'],
                 rule='STARVE programs: victim (writer among readers / writer among writers / reader among writers) against 2..4 bargers x 40..200 fresh acquire/release rounds under an adversarial scheduling policy with generated perturbations (3/4 of the cases) or RANDOM/PCT schedules; oracle = number of times the victim goes back to sleep inside one lock call <= 31+2T+2; non-trivial = the victim slept >= 31 times (the long-wait escalation engaged); distinct = distinct (scenario+policy parameters, realized trace hash)'),
     'C16': dict(num=16, sim=[(None, 1)], quick=150000, thorough=3000000, flavours_thorough=['gcc_new', 'cpp11'],
                 rule='LOCK and MON programs with debug-state callers on the same mutex / cv (oracles of C01, C02, C04 unchanged) and DEBUGBUF programs: frozen mutex/cv states with 0..3 queued waiters, all four functions for EVERY buffer size 0..80 with canaries and the output(n) vs output(1024) relation; non-trivial = a debug call ran while some acquisition went through a slow path (schedules) or truncation occurred (inputs); distinct = distinct (program hash, realized trace hash)'),
     'C19': dict(num=19, level='fault_enumeration', sim=[('ALLOC', 1)], quick=60000, thorough=1000000, flavours_thorough=['gcc_new', 'cpp11'],
                 rule='ALLOC scripts (trees of <=6 notes with deadlines none/past/future, <=3 counters, notifies); for each script EVERY allocation from note.c / counter.c call sites is failed in turn (exhaustive per script); evaluations counts executions (script x fault position); non-trivial = a script in which some constructor returned NULL while other objects existed; distinct = distinct scripts'),
+    'C15': dict(num=15, sim=[('MON', 1)], quick=150000, thorough=3000000, flavours_thorough=['gcc_new', 'cpp11'],
+                rule='(simulated twin of C15) MON programs whose past deadlines include instants before the epoch, on the modelled kernel futex (EINVAL for tv_sec<0)'),
     'C02': dict(num=2, sim=[(None, 1)], quick=400000, thorough=6000000, flavours_thorough=['gcc_new', 'c11', 'cpp11'],
                 rule='LOCK and MON programs x RANDOM/PCT/BYTES/FREEZE schedules x 3 semaphore flavours; non-trivial = some thread slept on its semaphore inside nsync_mu_lock/rlock and was woken by an unlocker (hand-off happened); distinct = distinct (program hash, realized trace hash)'),
 }
 
 
-def run_sim_property(pid, tier, seed):
+def run_sim_property(pid, tier, seed, embedded=False):
     cfg = PROPS[pid]
     t0 = time.time()
     ensure_driver()
@@ -237,6 +239,8 @@ def run_sim_property(pid, tier, seed):
                            'values are sequentially consistent; ordering is tracked by the vector-clock engine only',
                            'bounded programs (<=6 threads, <=3 sections each) and sampled schedules: exploration, not proof'],
               wall_s=round(wall, 2), violations=len(violations))
+    if embedded:
+        return dict(ev=ev, violations=violations)
     os.makedirs(f'{V}/evidence', exist_ok=True)
     json.dump(ev, open(f'{V}/evidence/{pid}.json', 'w'), indent=1)
 
@@ -288,10 +292,11 @@ def replay(pid, path):
 CINC = lambda: f'-I{REPO}/public -I{REPO}/platform/linux -I{REPO}/platform/gcc -I{REPO}/platform/x86_64 -I{REPO}/platform/posix -I{REPO}/internal'
 CXXINC = lambda: f'-I{REPO}/public -I{REPO}/platform/c++11.futex -I{REPO}/platform/c++11 -I{REPO}/platform/gcc -I{REPO}/platform/x86_64 -I{REPO}/platform/posix -I{REPO}/internal'
 SAN = '-g -O1 -fsanitize=address,undefined -fno-sanitize-recover=undefined'
-NATIVE_RULES = {
+NATIVE_RULES = {  # C15: plus a simulated twin, see PROPS['C15']
+
     'C17': 'part (a): EVERY state of the model-state graph reachable over 5 elements and 2 lists (rings of elements, list heads) is visited and EVERY legal operation (make_first, make_last, remove, splice_after) is executed from it on the real dll.c and compared with plain arrays (forward, backward, emptiness, self-linked singletons) - exhaustive; part (b): rapidcheck sequences of up to 200 operations over 8 elements / 3 lists; part (c): libFuzzer over the same interpreter with ASan+UBSan; non-trivial = sequence contains a splice or a removal from a list of >= 2 elements; distinct = distinct model states (a) + distinct operation sequences (b)',
     'C18': 'part (a): boundary grid seconds {0,+-1,+-2,+-2^31,2^31-1,+-2^40,+-2^62,max-1,min+2} x nanoseconds {0,1,5e8,1e9-1}, ALL pairs, cmp transitivity triples, ms/us grid, both builds (C file and C++ file linked together) - exhaustive; part (b): rapidcheck over normalized pairs with magnitudes spread over all bit lengths plus random 32-bit ms/us arguments; part (c): libFuzzer; oracle = 128-bit integer arithmetic; pairs whose seconds arithmetic would overflow time_t are not judged for add/sub; non-trivial = the pair needs a carry or a borrow; distinct = distinct pairs',
-    'C15': 'exhaustive boundary grid 16 deadlines (0, +-1 ns, +-1 s, -2^31 s, -2^62 s, INT64_MIN+1 s, now-30ms, now-2s, now+20ms, now+40ms, max-1ns, max-1s, no_deadline, now+1000s) x 9 timed entry points x {libnsync.a, libnsync_cpp.a} built by cmake from the working tree, each case in its own child process with a 20 s watchdog (3/3 hangs only); plus rapidcheck random deadlines (pre-epoch, epoch..now, now-d, now+20..60ms, far future); non-trivial = a deadline the existing suite does not use (not 0, not no_deadline, not now+small); distinct = distinct (library, entry, deadline) triples',
+    'C15': 'simulated twin: MON programs with pre-epoch deadlines on the modelled futex; real libraries: exhaustive boundary grid 16 deadlines (0, +-1 ns, +-1 s, -2^31 s, -2^62 s, INT64_MIN+1 s, now-30ms, now-2s, now+20ms, now+40ms, max-1ns, max-1s, no_deadline, now+1000s) x 9 timed entry points x {libnsync.a, libnsync_cpp.a} built by cmake from the working tree, each case in its own child process with a 20 s watchdog (3/3 hangs only); plus rapidcheck random deadlines (pre-epoch, epoch..now, now-d, now+20..60ms, far future); non-trivial = a deadline the existing suite does not use (not 0, not no_deadline, not now+small); distinct = distinct (library, entry, deadline) triples',
 }
 
 
@@ -436,6 +441,21 @@ def run_native_property(pid, tier, seed):
         evaluations += fuzz_runs
     if broken:
         print(f'check.py: {broken} shard(s) of {pid} produced no result: the check itself is broken (exit 2)'); return 2
+    if pid == 'C15':
+        # the same sweep in simulation against the modelled kernel (deterministic, replayable tapes)
+        sim = run_sim_property('C15', tier, seed, embedded=True)
+        if not isinstance(sim, dict):
+            return sim
+        sc = sim['ev']['coverage']
+        extra.update(simulated_evaluations=sc['evaluations'], simulated_distinct_nontrivial=sc['distinct_nontrivial'], simulated_verdict_histogram=sc['histograms'].get('verdicts', {}))
+        evaluations += sc['evaluations']; distinct += sc['distinct_nontrivial']
+        samples += sc['samples'][:1]
+        for v in sim['violations']:
+            os.makedirs(f'{V}/replays/{pid}', exist_ok=True)
+            path = f'{V}/replays/{pid}/sim_{hashlib.sha1(v["sig"].encode()).hexdigest()[:10]}.tape'
+            open(path, 'wb').write(v['tape']); json.dump(dict(family=v.get('family'), sig=v['sig'], msg=v['msg']), open(path[:-5] + '.json', 'w'))
+            open(path[:-5] + '.txt', 'w').write(v['dump'] + '\n' + v['msg'] + '\n')
+            violations.append(dict(msg='[simulation] ' + v['msg'], case=None, artifact=path, source=v['source']))
     wall = time.time() - t0
     ev = dict(property_id=pid, tier=tier, seed=seed, level='exploration',
               coverage=dict(evaluations=evaluations + regress_n, distinct_nontrivial=distinct, rule=NATIVE_RULES[pid], samples=samples or ['(none)'],
@@ -450,7 +470,9 @@ def run_native_property(pid, tier, seed):
     if violations:
         os.makedirs(f'{V}/replays/{pid}', exist_ok=True)
         for i, v in enumerate(violations[:4]):
-            if v.get('artifact'):
+            if v.get('artifact') and v['artifact'].endswith('.tape'):
+                path = v['artifact']
+            elif v.get('artifact'):
                 path = f'{V}/replays/{pid}/fuzz_{i}.bin'; shutil.copy(v['artifact'], path)
             else:
                 path = f'{V}/replays/{pid}/case_{i}.case'; open(path, 'w').write(v['case'] or '')
@@ -500,7 +522,9 @@ def main():
     seed = int(os.environ.get('VERIF_SEED', '1') or '1')
     os.makedirs(f'{WORK}/{pid}', exist_ok=True)
     if rp:
-        return replay_native(pid, rp) if pid in NATIVE else replay(pid, rp)
+        if pid in NATIVE and not rp.endswith('.tape'):
+            return replay_native(pid, rp)
+        return replay(pid, rp)
     if pid in NATIVE:
         return run_native_property(pid, tier, seed)
     if pid in PROPS and 'sim' in PROPS[pid]:
